@@ -1,6 +1,8 @@
 package trzsz
 
 import (
+	"path/filepath"
+	"os"
 	"fmt"
 	"regexp"
 	"strconv"
@@ -81,6 +83,10 @@ func vTmuxUnescape(s string) string {
 }
 
 func vScenarioC20(rc *runCtx) {
+	if rc.param("system", "0") == "1" {
+		vC20System(rc)
+		return
+	}
 	tp := rc.tape
 	w := rc.w
 	width := int32(1 + tp.Draw("c20.width", 500))
@@ -207,4 +213,77 @@ func vScenarioC20(rc *runCtx) {
 		return
 	}
 	rc.res.Nontrivial = sink.lines > 0
+}
+
+// vC20System: the progress line inside whole transfers: a server inside a tmux pane narrower than the user's
+// terminal (normal mode, or control mode through the tunnel), a terminal that is made narrower while a transfer
+// is running, and a second transfer through the same client afterwards. No progress line may be wider than the
+// narrowest width in force when it was written.
+func vC20System(rc *runCtx) {
+	tp := rc.tape
+	w := rc.w
+	cfg := vDrawConfig(tp, false)
+	cfg.quiet = false
+	cfg.trigVersion = ""
+	cfg.timeout = 20
+	cfg.bufSize = []string{"1K", "4k", ""}[tp.Draw("c20s.buf", 3)]
+	cfg.srvTmux = []string{"", "normal", "control"}[tp.Pick("c20s.stmux", 2, 2, 2)]
+	if cfg.srvTmux == "control" {
+		cfg.tunnel = true // control-mode triggers are only taken through the tunnel
+	}
+	src := filepath.Join(rc.dir, "src")
+	dst := filepath.Join(rc.dir, "dst")
+	dst2 := filepath.Join(rc.dir, "dst2")
+	os.MkdirAll(dst, 0755)
+	os.MkdirAll(dst2, 0755)
+	spec := vGenSources(rc, src, 2, cfg.dirMode, 60000, !cfg.overwrite)
+	o := cfg.opts()
+	o.srcPaths, o.dstDir = spec.paths, dst
+	o.cols = int32([]int{120, 100, 80, 200}[tp.Draw("c20s.cols", 4)])
+	o.profile = transportProfile{segPm: 200, coalPm: 100, latPm: 300, latMax: 30 * time.Millisecond, bytesPerMs: []int{0, 40, 10}[tp.Draw("c20s.bw", 3)]}
+	o.simCap = 30 * time.Minute
+	rc.res.ClassKey = fmt.Sprintf("system %s cols%d", cfg.key(), o.cols)
+	rc.res.Scenario["config"] = cfg.key()
+	x := newXferWorld(rc, o)
+	armed := vArmAfterCfg(x)
+	cols := o.cols
+	resizedAt := -1
+	// (a terminal narrower than the tmux pane it shows cannot exist: the resize is for servers outside tmux)
+	if cfg.srvTmux == "" && tp.Bool("c20s.resize", 700) {
+		newCols := int32(20 + tp.Draw("c20s.newcols", 60))
+		vOnChunk(rc, x, armed, 250, func() {
+			rc.fault("terminal-resized-during-transfer")
+			x.filter.SetTerminalColumns(newCols)
+			cols = newCols
+			resizedAt = x.term.NSentInt()
+		})
+	}
+	before := vSnapshot(dst)
+	x.start()
+	w.Run(x.finished)
+	rep := x.report()
+	from := x.termMark
+	if resizedAt >= 0 {
+		// only what was written after the terminal changed is judged against the new width
+		from = resizedAt + 1
+	}
+	colsNow := cols
+	x.o.cols = colsNow
+	vCheckFidelityFrom(rc, x, rep, before, true, from)
+	if rc.res.Class != "ok" {
+		return
+	}
+	// a second transfer through the same client: its bar goes by the width in force now
+	x.settle(11 * time.Second)
+	o2 := cfg.opts()
+	o2.srcPaths, o2.dstDir = spec.paths, dst2
+	before2 := vSnapshot(dst2)
+	x.nextTransfer(o2)
+	x.o.cols = colsNow
+	w.Run(x.finished)
+	rep2 := x.report()
+	vCheckFidelityFrom(rc, x, rep2, before2, true, x.termMark)
+	if rc.res.Class == "violation" {
+		rc.res.Msg = "second transfer through the same client: " + rc.res.Msg
+	}
 }
